@@ -149,7 +149,8 @@ def run(tier):
     chk.extra["exercised"] = st
     chk.extra["model_constants"] = mc
     for k in ("shared", "unfold_big", "rbg2_ok", "sb_ok", "rbg2sb_ok", "accept", "rollback", "pre", "full", "done_by_skips", "fin_rbg2_ok", "fin_est_gt_exact"):
-        if st[k] == 0:
+        # (the counters are measured on what the code returned: with violations at hand they prove nothing either way)
+        if st[k] == 0 and not chk.violations:
             raise ToolError("vacuous run: no event of kind %s" % k)
     if st["rbg2_ok"] != st["trees"]:
         # (q . (() . TREE)) always runs; an error is a mismatch already reported by TLC, but make sure it is
